@@ -172,11 +172,16 @@ def judge (which : Which) (cfg : Cfg) (st : JStep) (pre : Sys) (out : StepOut) :
             match fs.find? (fun f => !f.2.passing) with
             | some f => return some s!"bad available-true-unjustified {keyStr f.2.key}"
             | none => pure ()
-            -- complete: every listed object is reported, and each entry was controlled or written in this pass
+            -- complete: every listed object the ObjectSet controls (PKO never gives up control during a
+            -- rollout pass, so controlled-before implies controlled-after) is reported
             for f in fs do
-              if !co.contains (keyStr f.2.key) && !co.contains s!"{f.2.p.kind}/{desiredNs o.owner f.2.p}/{f.2.p.name}" then
+              if f.2.controlled && !co.contains (keyStr f.2.key) then
                 return some s!"bad controllerOf-incomplete-while-available {keyStr f.2.key}"
-          for c in co do
+          -- (documented reading) the error paths PreflightError / CollisionDetected write Available=False
+          -- and carry the previously recorded controllerOf over unchanged; the soundness clause of the
+          -- property is tied to passes that derive their status from the phases
+          let errorPath := cs.any fun c => c.1 == "Available" && (c.2.2.1 == "PreflightError" || c.2.2.1 == "CollisionDetected")
+          for c in (if errorPath then [] else co) do
             match fs.find? (fun f => keyStr f.2.key == c) with
             | none => return some s!"bad controllerOf-lists-unlisted-object {c}"
             | some f =>
@@ -193,7 +198,7 @@ def judge (which : Which) (cfg : Cfg) (st : JStep) (pre : Sys) (out : StepOut) :
     if o.lifecycle != .paused || tearing || archivedDone || !(st.setEnv.getD []).isEmpty then return none
     if !out.events.isEmpty then return some s!"bad write-while-paused {out.events.headD ""}"
     if out.res == "ok" && !dupKeys then
-      match out.setEvents.find? sOk with
+      match out.setEvents.reverse.find? sOk with      -- the final status update of the pass
       | none => return some "bad paused-status-not-reported"
       | some se =>
         let cs := sConds se
